@@ -127,7 +127,12 @@ def r13_6(ck: Check, rule: str = "R13.6") -> None:
                 continue
             n += 1
             args = e.term[2]
-            flag = args[1] if len(args) > 1 else dict(e.term[3]).get("validated", C(True))
+            dflt = ck.repo.func(CM + ".set_coinstate").defaults().get("validated")
+            try:
+                dflt_t = C(ck.repo.fold(dflt, ck.repo.func(CM + ".set_coinstate").module, None, {})) if dflt is not None else None
+            except Exception:
+                dflt_t = None
+            flag = args[1] if len(args) > 1 else dict(e.term[3]).get("validated", dflt_t if dflt_t is not None else ("opaque", "no default"))
             construct = "%s: set_coinstate(%s) records the state as validated%s" % (
                 short(fi.qualname), show(args[0])[:50] if args else "?", " (except in the bulk-download branch)" if fi.qualname == RP_H else "")
             if flag == C(True) or (fi.qualname == RP_H and flag == C(False)):
